@@ -161,9 +161,13 @@ def build(tier, seed, only=None):
                              'the factory object is in the state of a freshly constructed Lexicon (empty tables); generative factories do not read their farms'])
     # factories of unified nodes (types, names, atoms) and member sequences report what they were given too: those obligations belong to
     # C01 / C04 / C11 / C14 and are run here as well (their assertions labelled C02 are the read-back clauses)
-    import C04, C11, C14
+    import C04, C11, C14, C05
+    class C05S:      # only the scenario unit of C05 (its generated part would build every factory twice again)
+        @staticmethod
+        def build(tier, seed):
+            return C05.scenarios(tier, seed)
     xu, xo = [], []
-    for mod, keep in ((C04, lambda o: o.id.startswith('C04.get.')), (C11, lambda o: o.id == 'C11.get_qualified'), (C14, lambda o: o.id in ('C14.prim.obj_list', 'C14.prim.obj_sequence', 'C14.prim.ref_sequence'))):
+    for mod, keep in ((C04, lambda o: o.id.startswith('C04.get.')), (C11, lambda o: o.id == 'C11.get_qualified'), (C14, lambda o: o.id in ('C14.prim.obj_list', 'C14.prim.obj_list_interleaved', 'C14.prim.obj_sequence', 'C14.prim.ref_sequence')), (C05S, lambda o: o.id == 'C05.scenario.token_location')):
         uu, oo, mm = mod.build(tier, seed)
         oo = [o for o in oo if keep(o)]
         for o in oo:
